@@ -60,6 +60,9 @@ def run_generic(E, case, prop, fam, forking=True):
         raise
     except Exception as e:      # noqa: BLE001 - code under test raised on valid input
         import traceback
+        from ..runtime import _model_gap
+        if _model_gap(e):
+            raise Unsupported("model gap: " + _model_gap(e)) from e
         tb = traceback.format_exc()[-600:]
         res_, m = solve_exists(list(inp.pre) + list(getattr(e, "gb_pc", [])), True)
         model = inp.eval(m) if m is not None else {}
@@ -108,6 +111,9 @@ def run_generic(E, case, prop, fam, forking=True):
 
 def raises_result(E, inp, prop, sig, case, e, t0):
     """the code under test raised on valid input: a candidate 'fails instead of returning', to be confirmed by the replay"""
+    from ..runtime import _model_gap
+    if _model_gap(e):
+        raise Unsupported("model gap: " + _model_gap(e)) from e
     res_, m = solve_exists(list(inp.pre) + list(getattr(e, "gb_pc", [])), True)
     return {"verdict": "sat", "solver_s": 0.0, "symex_s": time.time() - t0, "n_queries": 1, "obligations": 0, "failed_obligations": [],
             "witnesses": {}, "encoded": sorted(E.encoded),
